@@ -504,14 +504,24 @@ def run_case(case, ctx):
         # optional extrinsic input (1-D, broadcast to all units) on an input variable of one population
         rnd_in = random.Random(case['cseed'] + 7)
         inputs, input_fn = None, None
-        if rnd_in.random() < 0.35:
+        if rnd_in.random() < 0.35 or case.get('force_input'):
             pn_ = rnd_in.choice(sorted(plan_['pops']))
+            tg_ = []
+            if case.get('force_input'):
+                # (C08 population family: preferably a population that is the target of a connection, so that input and connection
+                # converge on one variable)
+                tg_ = sorted({tuple(c['target']) for c in plan_['conns'] if c['target'][2] not in plan_['pops'][c['target'][0]]['params']})
+                if tg_:
+                    pn_, _, forced_v = rnd_in.choice(tg_)
             p_ = plan_['pops'][pn_]
             # (not onto an input whose per-unit values come from `params`: whether an extrinsic input replaces or joins them
             # is not defined by the property)
             ins_ = sorted(v for v, d in plan_['ops'][p_['op']]['vars'].items() if d[0] == 'in' and v not in p_['params'])
             if ins_:
                 v_ = rnd_in.choice(ins_)
+                if case.get('force_input') and tg_ and forced_v in ins_:
+                    v_ = forced_v
+                    mech['input_converges_with_connection'] = 1
                 arr_ = np.random.RandomState(case['cseed'] % (2 ** 31)).standard_normal(steps)
                 inputs = {f"{pn_}/{p_['op']}/{v_}": arr_.copy()}
                 input_fn = lambda k, pn_=pn_, p_=p_, v_=v_, arr_=arr_: {(f'{pn_}__{i}', p_['op'], v_): float(arr_[min(k, steps - 1)])
